@@ -12,3 +12,62 @@ ASSUMPTIONS = c02.ASSUMPTIONS + [
 verify = c02.verify
 REPLAY = {"*": "replay_region"}
 NATIVE_CHECKS = [{"func": "crosscheck", "payload": {}}]
+
+
+# ---------------------------------------------------------------------------
+# region loading in SourceFinder.load_globals: the region the finder uses IS the region the caller gave
+# ---------------------------------------------------------------------------
+from pyvc.engine import (Ctx as _Ctx, Obj as _Obj, Namespace as _NS, Model as _Model, ClassModel as _CM, Instance as _Inst,
+                         Env as _Env, PyRaise as _PyRaise, Undecided as _Und, Opaque as _Opq, UnknownCallable as _UC)
+from contracts.c10 import RegionModel as _RegionModel
+
+
+def t_region_loading(ctx):
+    from pyvc import lib as _lib
+    which = ctx.choice(4)          # None / Region object / existing file / missing file
+    loaded = _RegionModel()
+    given = _RegionModel()
+    mask = [None, given, "region.mim", "missing.mim"][which]
+    g = {'np': _lib.std_np(), 'os': _NS('os', path=_NS('path', exists=_Model(lambda c, f: f == "region.mim"))),
+         'logging': _NS('logging'), 'Region': _RegionClass(loaded)}
+    cls = _CM("AegeanTools/source_finder.py", 'SourceFinder', _Env(g))
+    ctx.interp.inline.add("SourceFinder.load_globals")
+    # callees: havocking contracts whose frame condition (they never assign .region) is checked on their source text
+    import ast as _ast
+    from pyvc.engine import find_function as _ff
+    for callee in ('_make_bkg_rms', '_load_aux_image'):
+        node = _ff("AegeanTools/source_finder.py", "SourceFinder." + callee)
+        writes_region = any(isinstance(n, _ast.Attribute) and n.attr == 'region' and isinstance(n.ctx, (_ast.Store, _ast.Del))
+                            for n in _ast.walk(node))
+        ctx.oblige("frame", "load_globals.callee_%s_never_assigns_region" % callee, not writes_region)
+        ctx.interp.contracts["SourceFinder." + callee] = _Model(lambda c, *a, **k: _Opq("result of a havocking callee"))
+    gd = _Obj('GlobalFittingData', img=None, region='unset')
+    gd.havocked = True
+    me = _Inst(cls, global_data=gd, log=_NS('log'))
+    me.havocked = True
+    try:
+        ctx.interp.call(me.getattr_(ctx, 'load_globals'), ["image.fits"], {'mask': mask})
+    except _PyRaise:
+        pass
+    want = [None, given, loaded, None][which]
+    lab = "load_globals.region_%s" % ["none", "object", "file", "missing_file"][which]
+    ctx.oblige("post", lab + ".is_the_callers_region_on_every_path", gd.fields.get('region') is want)
+
+
+class _RegionClass(_NS):
+
+    def __init__(self, loaded):
+        _NS.__init__(self, 'Region', load=_Model(lambda c, f: loaded, 'Region.load'))
+        self.name = 'Region'
+
+
+_base_verify = verify
+
+
+def verify(S):       # noqa: F811
+    _base_verify(S)
+    ctx = _Ctx(S, "source_finder.SourceFinder.load_globals")
+    try:
+        ctx.explore(t_region_loading)
+    except _Und as u:
+        S.undecided.append("source_finder.SourceFinder.load_globals: %s" % u)
